@@ -338,6 +338,10 @@ def run(ctx):
         k = min(500, n - done)
         run_cases(ctx, gen_cases(ctx, k, depth))
         done += k
+    for mode in (True, "newtype", "typealias"):
+        if ctx.time_left() > 60:
+            with ctx.wrapped(mode):
+                run_cases(ctx, gen_cases(ctx, 400 if ctx.tier == "quick" else 5000, depth))
     run_families(ctx, 150 if ctx.tier == "quick" else 2500)
     ctx.assumptions += [
         "object identity is CPython's id(); non-mutation is monitored on the implementation only (a pure model cannot mutate)",
